@@ -282,6 +282,8 @@ class Gen:
                                       "-webkit-transition: color .2s ease", "width: calc(100% - 2 * var(--gap, 4px))",
                                       "outline-color: #abcdef", "padding: 0 0 0 1e1px", "font-family: \"caf\\e9\", serif",
                                       "transform: translate( -50% , -50% )", "unicode-range: U+0025-00FF",
+                                      # vendor hacks that are NOT declarations by the grammar (star hack): carried through as they are
+                                      "*zoom: 1", "*display: inline", "_height: 1%",
                                       # an at-rule inside the style rule's block (CSS Syntax 3 allows at-rules in declaration lists;
                                       # nested STYLE rules - `&:hover { }` - are beyond the tokenizer both sides use: observation F7)
                                       "@media (min-width: 40em) { margin: 0 2em; outline-color: #123456 }", "@supports (display: grid) { display: grid }"]))
@@ -633,6 +635,25 @@ def flatten_sheet(css_text, ids):
 
     def decls(content, rule_id):
         lst = tinycss2.parse_declaration_list(content, skip_whitespace=True, skip_comments=False)
+        if any(d.type == "error" for d in lst):
+            # something in the block is no declaration by the grammar (a star hack, say): the block is read piece by piece
+            # (pieces end at top-level semicolons) and such a piece is carried as its own tokens
+            lst, chunk = [], []
+            for tok in list(content) + [None]:
+                if tok is not None:
+                    chunk.append(tok)
+                if tok is None or (tok.type == "literal" and tok.value == ";"):
+                    sub = tinycss2.parse_declaration_list(chunk, skip_whitespace=True, skip_comments=False)
+                    if any(d.type == "error" for d in sub):
+                        body = [x for x in chunk if not (x.type == "literal" and x.value == ";")]
+                        items.append({"k": "declerror", "a": ids(("errtokens", norm_tokens(body))), "b": 0, "imp": False, "rule": rule_id, "name": ""})
+                    else:
+                        _emit(sub, rule_id)
+                    chunk = []
+            return
+        _emit(lst, rule_id)
+
+    def _emit(lst, rule_id):
         for d in lst:
             if d.type == "declaration":
                 items.append({"k": "decl", "a": ids(("name", d.name)), "b": ids(("val", norm_tokens(d.value))), "imp": bool(d.important),
